@@ -323,6 +323,7 @@ struct Exchange {
         const unsigned withSym = vf_range(0, originLen, "bytesWithHeader");
         vf_assume(withSym <= 2 || segEnd[withSym]);
         const unsigned with = (unsigned)vf_concretize(withSym);
+#ifndef C01_SHOW_CANDIDATES // (compiling with -DC01_SHOW_CANDIDATES removes the two exclusions and makes the check report both classes)
         // KNOWN-FINDING candidate: bytes that follow the header block of a reply that cannot have a body (204, 304, reply to HEAD) are
         // written to the store as body bytes (writeReplyBody(): truncateVirginBody() returns early when !expectingBody()).
         if (headRequest || noBodyStatus) vf_assume(with == 0);
@@ -331,6 +332,7 @@ struct Exchange {
         // this with payloadTruncated only for Content-Length > 0).
         if (framing == BY_LENGTH && declared == 0) vf_assume(with == 0);
         if (framing == BY_CHUNKS) vf_assume(with <= frameEnd);
+#endif
         hs->inBuf.append(reinterpret_cast<const char *>(origin), with);
         originPos = with;
         hs->payloadSeen = hs->inBuf.length();
@@ -365,7 +367,9 @@ struct Exchange {
             // chunk's data, of a chunk, of the last-chunk line, of the body, or of everything the origin has sent
             const unsigned ks = vf_range(1, originLen - originPos, "segment");
             vf_assume(ks <= 2 || segEnd[originPos + ks]);
+#ifndef C01_SHOW_CANDIDATES
             if (framing == BY_CHUNKS) vf_assume(originPos + ks <= frameEnd); // KNOWN-FINDING candidate (see setup()): no read beyond the final CRLF
+#endif
             completeRead(Comm::OK, (unsigned)vf_concretize(ks));
             break; }
         case END: sawEof = true; completeRead(Comm::ENDFILE, 0); break;
